@@ -179,6 +179,12 @@ func vfCheckPRWire(s *vfSim, w *vfWork, mo *vfMonOut, drained bool) {
 						}
 					case ReliabilityTypeTimed:
 						deadline := m.FirstT + time.Duration(wr.RelVal)*time.Millisecond
+						if s.spec.Yield > 0 {
+							// with armed yields a packet reaches the wire up to a few ms after the decision to send it
+							// was taken (sleep between gatherOutbound and the transport write): a transmission that
+							// close behind the deadline may have been decided before it
+							deadline += 12 * time.Millisecond
+						}
 						for _, t := range m.TSNs {
 							ti := sh.tx[t]
 							res.count("c06_timed_tsns_checked", 1)
